@@ -610,6 +610,9 @@ def _build_tables():
     ALWAYS[(_dt.datetime, "now")] = lambda tz=None: cal.clock_now(tz)
     ALWAYS[(_dt.datetime, "today")] = lambda: cal.clock_now(None)
     ALWAYS[(_dt.datetime, "utcnow")] = lambda: cal.clock_now(None)
+    from . import extcal
+
+    extcal.register(reg, MODELS)
     import time as _time
 
     reg(_time.struct_time, lambda seq: tuple(seq)[:9] if len(tuple(seq)) >= 9 else tuple(seq),
